@@ -159,6 +159,15 @@ Example one_answer_nonvacuous :
   /\ run gen_tables (Some 308%N) (fresh, init_conn false)
       [IReqHead; IConnect (Some KHttpsRedirect)] = [EvDefault 308]
   /\ run gen_tables None (fresh, init_conn false)
+      [IReqHeadBody; IConnect None; IReqSent; IBack1xx false; IBackClose] = [EvDefault 502]
+  /\ run gen_tables None (fresh, init_conn false)
+      [IReqHeadBody; IConnect None; IReqSent; IBack1xx false; IFrontWrite true; IReqBodyEnd; IBackHead; IBackEnd; IFrontWrite true]
+     = [EvInterim; EvRelayStart; EvRelayEnd; EvRecycle]
+  /\ run gen_tables None (fresh, init_conn false)
+      [IReqHead; IConnect None; IReqSent; IBack1xx false; IBackTimeout] = [EvDefault 504]
+  /\ run gen_tables None (fresh, init_conn false)
+      [IReqHead; IConnect None; IReqSent; IBack101; IBackClose; IFrontWrite true] = [EvUpgrade]
+  /\ run gen_tables None (fresh, init_conn false)
       [IReqHead; IConnect None; IReqSent; IBackNoKeepAlive; IBackHead; IBackClose; IFrontWrite true]
      = [EvRelayStart; EvRelayEnd; EvClose].
 Proof. vm_compute. repeat split; reflexivity. Qed.
